@@ -115,7 +115,9 @@ inductive Fate
   | cancelled
   deriving DecidableEq, Repr
 
-inductive Op | close | tx (f : Fate)
+/-- `closeDeadline past`: `SetCloseDeadline(t)` with `t` already passed / still ahead when the
+session is closed later -/
+inductive Op | close | tx (f : Fate) | closeDeadline (past : Bool)
   deriving DecidableEq, Repr
 
 inductive Res | ok | closedOut | failed
@@ -128,9 +130,12 @@ structure St where
   wdPast : Bool
   tags : Nat
   wire : List Hist.Item
+  /-- a close deadline has been set and has passed (it governs the READ side: `Serve`'s wait for
+  the peer; it is no business of the write of the closing tag) -/
+  cdPast : Bool
   deriving DecidableEq, Repr
 
-def init : St := ⟨false, false, false, 0, []⟩
+def init : St := ⟨false, false, false, 0, [], false⟩
 
 /-- the write deadline a guarded call leaves behind when its context has ended.  Joined (the
 code: the cleanup waits for the watcher, which sets "past" and then clears): cleared.  Not
@@ -152,6 +157,23 @@ def step (joined : Bool) (s : St) : Op → St × Res
       | .alive => ({ s with wire := s.wire ++ [.el] }, .ok)
       | .over => ({ s with wire := s.wire ++ [.el], wdPast := leftPast joined }, .ok)
       | .cancelled => ({ s with encDead := true }, .failed)
+  | .closeDeadline p => ({ s with cdPast := p }, .ok)
+
+/-- NOT the code: `closeSession` putting the close deadline on the connection as write deadline
+for the write of the closing tag.  Once that deadline has passed the write fails at once. -/
+def stepBounded (s : St) : Op → St × Res
+  | .close =>
+    if s.outClosed then (s, .ok)
+    else if s.wdPast || s.cdPast then ({ s with outClosed := true }, .failed)
+    else ({ s with outClosed := true, tags := s.tags + 1, wire := s.wire ++ [.close] }, .ok)
+  | op => step true s op
+
+def runBounded : St → List Op → St × List Res
+  | s, [] => (s, [])
+  | s, op :: ops =>
+    let r := stepBounded s op
+    let rest := runBounded r.1 ops
+    (rest.1, r.2 :: rest.2)
 
 def run (joined : Bool) : St → List Op → St × List Res
   | s, [] => (s, [])
